@@ -44,11 +44,14 @@ impl FragmentBuffer {
         }
     }
 
-    pub fn finalize(mut self) -> Box<[u8]> {
+    pub fn finalize(self) -> Box<[u8]> {
         debug_assert!(self.total_size <= self.buffer.len());
-        let ptr = self.buffer.as_mut_ptr();
-        std::mem::forget(self.buffer);
-        unsafe { Box::from_raw(std::slice::from_raw_parts_mut(ptr, self.total_size)) }
+        // Shrink through Vec so that the allocation is resized to the new length. Re-boxing the
+        // pointer with a shorter length would later free the block with a size it was not
+        // allocated with, which violates the allocator contract.
+        let mut data = self.buffer.into_vec();
+        data.truncate(self.total_size);
+        data.into_boxed_slice()
     }
 
     pub fn is_finished(&self) -> bool {
